@@ -16,8 +16,16 @@ Projection compared with the spec after every action:
   plan    hosts left in the future's query plan
   pool    per host: can a connection be borrowed (ok / shutdown / noconn)
   timer   is the client timeout armed
+  rid     ResponseFuture._req_id (when the id space is shrunk)
+
+Stream ids.  cfg.ids = k in {1, 2} shrinks the id space of every pool connection before the execution
+(conn.request_ids = deque(range(k)); conn.highest_request_id = k - 1, as harness/replay/connection.py does), so that ids
+wrap at once and the EXECUTE, the PREPARE and the re-sent EXECUTE travel under stream id 0 in some behaviours; the stream
+id of every frame and whether its handler is still registered are then part of the projection.  k = 0 leaves the driver's
+default id space alone (ids not compared).
 """
 import copy
+from collections import deque
 
 from harness.sim.simcluster import SimWorld, FakeNode, make_cluster
 from harness import wire
@@ -28,7 +36,7 @@ from cassandra.policies import RoundRobinPolicy, FallthroughRetryPolicy, Convict
 from cassandra.protocol import ResultMessage, ErrorMessage
 from cassandra.query import tuple_factory
 
-VARS = ("plan", "sent", "srv", "queue", "final", "pool", "timer")
+VARS = ("plan", "sent", "srv", "queue", "final", "pool", "timer", "rid")
 QUERY = "SELECT a FROM t WHERE k=? /* %s */"
 OTHER_ID = b"id-of-something-else"
 
@@ -51,11 +59,11 @@ def host_name(address):
 
 
 class Env:
-    """One simulated cluster per (nhosts, pv, cks); reused by behaviours that leave it intact."""
+    """One simulated cluster per (nhosts, pv, cks, ids); reused by behaviours that leave it intact."""
     cache = {}
 
-    def __init__(self, nhosts, pv, cks):
-        self.nhosts, self.pv, self.cks = nhosts, pv, cks
+    def __init__(self, nhosts, pv, cks, ids=0):
+        self.nhosts, self.pv, self.cks, self.ids = nhosts, pv, cks, ids
         self.world = SimWorld()
         self.nodes = {}
         for i in range(1, nhosts + 1):
@@ -79,13 +87,13 @@ class Env:
         self.dirty = False
 
     @classmethod
-    def get(cls, nhosts, pv, cks):
-        key = (nhosts, pv, cks)
+    def get(cls, nhosts, pv, cks, ids=0):
+        key = (nhosts, pv, cks, ids)
         env = cls.cache.get(key)
         if env is None or env.dirty or env.cluster.is_shutdown:
             if env is not None:
                 env.close()
-            env = cls.cache[key] = Env(nhosts, pv, cks)
+            env = cls.cache[key] = Env(nhosts, pv, cks, ids)
         # the simulation substrate has one current world
         SimWorld.current = env.world
         from harness.sim import simconn, simcluster
@@ -111,6 +119,19 @@ class Env:
         if req.get("op") in ("PREPARE", "EXECUTE"):
             self.log.append((host_name(node.address), req))
         return False
+
+    def shrink_ids(self):
+        """cfg.ids = k > 0: every pool connection starts the execution with the id space 0..k-1."""
+        if not self.ids:
+            return
+        for host, pool in self.session._pools.items():
+            c = pool._connection
+            if c is None or c.in_flight != 0 or c._requests:
+                self.dirty = True
+                raise AssertionError("pool connection of %s is not idle" % host)
+            c.request_ids = deque(range(self.ids))
+            c.highest_request_id = self.ids - 1
+            c.orphaned_request_ids.clear()
 
     def qid(self, sks):
         return b"id-" + sks.encode()
@@ -147,7 +168,8 @@ class Env:
 class ReprepareHarness:
     def __init__(self, nhosts, cfg):
         self.cfgv = dict(cfg)
-        self.env = Env.get(nhosts, cfg["pv"], cfg["cks"])
+        self.ids = cfg.get("ids", 0)
+        self.env = Env.get(nhosts, cfg["pv"], cfg["cks"], self.ids)
         env = self.env
         self.stmt = env.statement(cfg["sks"])
         self.qid = env.qid(cfg["sks"])
@@ -159,6 +181,7 @@ class ReprepareHarness:
             del n.pending[:]
             del n.received[:]
         env.world.live_timers()
+        env.shrink_ids()
 
     def finish(self):
         env = self.env
@@ -234,7 +257,8 @@ class ReprepareHarness:
             q = "id" if req.get("id") == self.qid else "id?%r" % (req.get("id"),)
         else:
             q = "Q" if req.get("query") == self.stmt.query_string else "text?%r" % (req.get("query"),)
-        return {"h": h, "kind": req["op"], "q": q, "ks": req.get("keyspace") or "none"}
+        return {"h": h, "kind": req["op"], "q": q, "ks": req.get("keyspace") or "none",
+                "sid": req["stream"] if self.ids else -1}
 
     def _resp_kind(self, r):
         if isinstance(r, ResultMessage):
@@ -254,7 +278,8 @@ class ReprepareHarness:
             for p in node.pending:
                 if p.req.get("op") in ("PREPARE", "EXECUTE"):
                     idx = [i for i, (hh, r) in enumerate(env.log, 1) if r is p.req]
-                    srv.add((h, p.req["op"], idx[0] if idx else -1))
+                    live = p.frame.stream in p.conn._requests
+                    srv.add((h, p.req["op"], idx[0] if idx else -1, p.frame.stream if self.ids else -1, live))
         queue = []
         for t in env.cluster.executor.queue:
             if t.label == "_reprepare":
@@ -272,7 +297,7 @@ class ReprepareHarness:
                 pool[h] = "ok"
         if fut is None:
             return {"plan": tuple(sorted(env.hosts)), "sent": sent, "srv": frozenset(srv), "queue": tuple(queue),
-                    "final": "unset", "pool": pool, "timer": "none"}
+                    "final": "unset", "pool": pool, "timer": "none", "rid": -1}
         exc, res = fut._final_exception, fut._final_result
         if exc is not None and res is not _NOT_SET:
             final = "both:%s+result" % type(exc).__name__
@@ -288,15 +313,16 @@ class ReprepareHarness:
             plan = ("?",)
         t = fut._timer
         timer = "armed" if (t is not None and not t.canceled and not getattr(t, "_fired", False)) else "off"
+        rid = fut._req_id if (self.ids and fut._req_id is not None) else -1
         return {"plan": plan, "sent": sent, "srv": frozenset(srv), "queue": tuple(queue), "final": final,
-                "pool": pool, "timer": timer}
+                "pool": pool, "timer": timer, "rid": rid}
 
 
 def spec_view(state):
     return {"plan": tuple(state["plan"]), "sent": tuple(dict(m) for m in state["sent"]),
-            "srv": frozenset((r["h"], r["kind"], r["n"]) for r in state["srv"]),
+            "srv": frozenset((r["h"], r["kind"], r["n"], r["sid"], r["live"]) for r in state["srv"]),
             "queue": tuple(dict(t) for t in state["queue"]), "final": state["final"], "pool": dict(state["pool"]),
-            "timer": state["timer"]}
+            "timer": state["timer"], "rid": state["rid"]}
 
 
 def diff(spec, real):
@@ -355,14 +381,17 @@ def cover_walks(nodes, edges, init, max_len=60):
 # ---------------------------------------------------------------------- recording (code -> spec)
 def _post(p):
     return {"plan": list(p["plan"]), "sent": [dict(m) for m in p["sent"]],
-            "srv": sorted(({"h": h, "kind": k, "n": n} for h, k, n in p["srv"]), key=lambda r: r["n"]),
-            "queue": [dict(t) for t in p["queue"]], "final": p["final"], "pool": dict(p["pool"]), "timer": p["timer"]}
+            "srv": sorted(({"h": h, "kind": k, "n": n, "sid": sid, "live": live} for h, k, n, sid, live in p["srv"]),
+                          key=lambda r: r["n"]),
+            "queue": [dict(t) for t in p["queue"]], "final": p["final"], "pool": dict(p["pool"]), "timer": p["timer"],
+            "rid": p["rid"]}
 
 
 def record(rng, nhosts=3, max_unprep=3, cfg=None, bias=None):
     """Drive the real objects with random enabled environment choices; return (cfg, events)."""
     if cfg is None:
-        cfg = {"pv": rng.choice([4, 5]), "sks": rng.choice(["none", "ks"]), "cks": rng.choice(["none", "ks", "ks2"])}
+        cfg = {"pv": rng.choice([4, 5]), "sks": rng.choice(["none", "ks"]), "cks": rng.choice(["none", "ks", "ks2"]),
+               "ids": rng.choice([0, 1, 1, 2])}
     h = ReprepareHarness(nhosts, cfg)
     events = []
     unprep = 0
